@@ -254,6 +254,8 @@ package mkvs
 //@   ensures forall p PtrT :: old(p.LRU == nil) ==> p.Node == old(p.Node) && p.LRU == nil
 //@   ensures err != nil && old(typeIs[*node.InternalNode](ptr.Node)) ==> old(ptr.Node).(*node.InternalNode).LeafNode == old(ptr.Node.(*node.InternalNode).LeafNode) && old(ptr.Node).(*node.InternalNode).Left == old(ptr.Node.(*node.InternalNode).Left) && old(ptr.Node).(*node.InternalNode).Right == old(ptr.Node.(*node.InternalNode).Right)
 //@   note (C03, C04) a removal that is abandoned (a part below the node is the locked pointer) leaves the node as it was: the node stays in the cache, so every part it had must still hang on it - a detached part reads as an EMPTY subtree. FAILS on the pinned tree: known finding F16
+//@   ensures old(lockedPtr != nil && lockedPtr == ptr) ==> err != nil
+//@   note (C04) the locked pointer - the one a remote fetch is being dereferenced for - stops every eviction that reaches it, whether or not it is in an eviction list yet (it was just merged and is not): the removal of an ancestor recurses into it and is abandoned with an error, so the path being traversed stays in memory (seed C04_j tested "not in the list: nothing to do" first: the in-flight path was evicted under the iterator, which then skipped a subtree without an error)
 //@   note evicts the node and (recursively) what hangs below it from the LRU lists: the dirty flag and hash of EVERY pointer are left alone, and a pointer that is not in an eviction list (a dirty or new node) keeps its node
 
 //@ func cache.tryEvictLeaf
@@ -288,6 +290,9 @@ package mkvs
 //@ func cache.rollbackNode
 //@   props C02 C03
 //@   ensures ptr.Node == old(ptr.Node) && ptr.Clean == old(ptr.Clean) && ptr.Hash == old(ptr.Hash)
+//@   ensures old(ptr.LRU != nil && typeIs[*node.InternalNode](ptr.Node)) ==> c.lruInternalPos != old(ptr.LRU) && ptr.LRU == nil
+//@   ensures old(ptr.LRU != nil && typeIs[*node.LeafNode](ptr.Node)) ==> c.lruLeafPos != old(ptr.LRU) && ptr.LRU == nil
+//@   note (C02) the marked insert position of a list never keeps referring to an element that was taken out of the list: inserting "after" a removed element silently fails (container/list returns nil), the node is then counted but in no list, the counts creep up to the capacity, and the next fetch evicts clean ancestors of the path being updated - a commit then hashes a dead pointer and returns a wrong root without an error (seed C02_b compared with the OTHER list's marked position)
 //@   note LRU bookkeeping only: the pointer leaves the eviction list and keeps its node, dirty flag and hash
 
 //@ func cache.derefNodePtr
@@ -357,6 +362,8 @@ package mkvs
 //@   ensures-local err == nil && defined(remainingLeft) && !defined(ndLeaf) && !defined(nodePtr) ==> ite(remainingLeaf != nil, 1, 0) + ite(remainingLeft != nil, 1, 0) + ite(remainingRight != nil, 1, 0) >= 2
 //@   ensures-local err == nil && defined(changed) && changed && !defined(ndLeaf) && !defined(nodePtr) && result0 == ptr ==> !ptr.Clean
 //@   note (C02) an internal node that stays in the tree after a removal below it (or of its own attached leaf) has its pointer marked dirty, so that the next commit recomputes its hash: a removal that leaves the pointer clean keeps the stale hash - the root no longer reflects the contents (seed C02_a returned early for a node that lost its attached leaf but kept both subtrees)
+//@   ensures err != nil ==> result0 == ptr
+//@   note (C03) a removal that FAILS (cancelled context, a node on the path that cannot be fetched) hands back the pointer it was given: the caller one level up stores whatever comes back into the part slot it descended through (n.LeafNode / n.Left / n.Right are assigned together with the error), so anything else - nil - cuts the branch toward the key off a node that stays clean, and every key below it reads as absent until the node is evicted. FAILED on the pinned tree at all five error returns: finding F17, fixed
 //@   note ... and conversely an internal node that STAYS in the tree (the path through neither collapse branch) has at least two parts left: no internal node with a single part - which would give the same key set a different shape, hence a different root hash - survives a removal (C02, local)
 //@   note an internal node is taken out of the tree (replaced by its attached leaf or by its only child) only when at most ONE of its three parts - the attached leaf (the key that is a prefix of the subtree's keys), the left and the right subtree - is still there after the removal below it: nothing that still holds keys is dropped together with the node (seed C03_g collapsed a node with a leaf and a RIGHT subtree into the leaf). The parts are what derefNodePtr returns (see F10 for when that is wrong)
 
@@ -377,4 +384,22 @@ package mkvs
 //@   requires t != nil
 //@   assume-pre (node\.Key\.(AppendBit|GetBit|BitLength|Merge|Split|CommonPrefixLen)|mkvs\.cache\.derefNodePtr)$
 //@   precall mkvs\.cache\)\.newInternalNode$ :: ite(argAs[*node.Pointer](2) != nil, 1, 0) + ite(argAs[*node.Pointer](3) != nil, 1, 0) + ite(argAs[*node.Pointer](4) != nil, 1, 0) == 2 && (argIs(2, ptr) || argIs(3, ptr) || argIs(4, ptr))
+//@   preassign InternalNode.LeafNode :: err == nil
+//@   preassign InternalNode.Left :: err == nil
+//@   preassign InternalNode.Right :: err == nil
+//@   note (C03) the result of the insertion below is stored into a part slot of an existing node only after that insertion SUCCEEDED: a failed insert (cancelled context, a node that cannot be fetched) leaves every node it passed as it was - a failed recursive call returns no pointer, and storing that would cut the branch toward the key off a node that stays clean (seed C03_i stored before the error check: after a failed Insert untouched keys read as absent)
 //@   note every internal node an insertion creates (an edge split) has EXACTLY two parts: the new leaf and the node that was there (as attached leaf, left or right child) - never a node with a single part or one that drops the existing subtree
+
+// ---- commit (C02): hashes of dirty nodes are recomputed bottom-up ----
+
+//@ ghost var GSubCommits int
+//@ ghost var GHashUpd int
+
+//@ func doCommit
+//@   props C02 C04
+//@   precall node\.InternalNode\)\.UpdateHash$ :: GSubCommits >= old(GSubCommits) + 3
+//@   precall api\.Batch\)\.PutNode$ :: argIs(0, ptr) && GHashUpd > old(GHashUpd)
+//@   loop 1 invariant GSubCommits >= old(GSubCommits) + 1 + idx()
+//@   ensures err == nil && ptr != nil ==> result0 == ptr.Hash
+//@   ensures err == nil && old(ptr != nil && ptr.Clean) ==> GHashUpd == old(GHashUpd)
+//@   note the hash of a dirty internal node is recomputed only after its three parts (attached leaf, left, right) were committed successfully - i.e. after THEIR hashes were brought up to date (bottom-up) -, a dirty node is handed to the database only after a hash recomputation happened in this call (its own: the counter cannot tell it from one further down, so a missing recomputation is caught for leaves and for nodes whose parts are clean), a clean pointer is not rehashed, and the hash returned is the pointer's. Not proved: that the parts' hashes are still the recomputed ones when the parent is hashed (no frame over the recursion, see A.8)
